@@ -232,8 +232,8 @@ func sampleCIReplay(in io.Reader, raw bool, args []string) (*Summary, error) {
 		for lo := 0; lo <= n; lo++ {
 			for hi := lo + 1; hi <= n+1; hi++ {
 				for _, q := range []float64{0.25, 0.5} {
-					s := stats.Sample{Xs: append([]float64{}, xs...), Sorted: sc.Init.Sorted}
-					keep := append([]float64{}, s.Xs...)
+					gx, okx := guarded(xs) // a window of a larger buffer: what lies behind the sample belongs to the caller too
+					s := stats.Sample{Xs: gx, Sorted: sc.Init.Sorted}
 					ci := stats.QuantileCIResult{Quantile: q, N: n, LoOrder: lo, HiOrder: hi}
 					gq, gl, gh := ci.SampleCI(s)
 					sum.Checks++
@@ -248,8 +248,8 @@ func sampleCIReplay(in io.Reader, raw bool, args []string) (*Summary, error) {
 					if gl != wl || gh != wh || !(gq == wq || (math.IsNaN(gq) && math.IsNaN(wq))) {
 						sum.viol("SampleCI", c, "n=%d orders (%d,%d) q=%v: got (%v,%v,%v) want (%v,%v,%v)", n, lo, hi, q, gq, gl, gh, wq, wl, wh)
 					}
-					if !bitsEqual(s.Xs, keep) {
-						sum.viol("SampleCI-modifies", c, "SampleCI reordered the caller's sample")
+					if !okx() {
+						sum.viol("SampleCI-modifies", c, "SampleCI changed the caller's sample (or the spare capacity behind it)")
 					}
 				}
 			}
